@@ -144,6 +144,13 @@ class _Loader(importlib.machinery.SourceFileLoader):
         for k, (modname, repl) in module_patches.items():
             if getattr(g.get(k), '__name__', None) == modname:
                 g[k] = repl
+        if 're' in module_patches:
+            # regular expressions compiled at import time (module-level constants) ran through the real `re`: wrap them
+            import re as _re
+            from . import symre
+            for k, v in list(g.items()):
+                if isinstance(v, _re.Pattern):
+                    g[k] = symre._Compiled(v.pattern, v.flags & ~_re.UNICODE)
 
 
 class _Finder(importlib.abc.MetaPathFinder):
